@@ -609,7 +609,7 @@ def gen_workflow(rnd):
                 if ck < 0.6:
                     ver = rnd.choice(['v4.1.1', 'v3.5.2', 'v4'])
                     extra = ''
-                    gap1, gap2 = rnd.choice([' ', '  ']), rnd.choice([' ', '', '  '])
+                    gap1, gap2 = rnd.choice([' ', '  ', '\t', ' \t']), rnd.choice([' ', '', '  ', '\t'])      # a tab separates a comment as well as a blank does
                     out.w(gap1 + '#' + gap2 + ver + extra)
                     if extra:
                         cls.add('gha-comment-extra-words')
